@@ -109,6 +109,7 @@ def opOf : Sexp → Option Op
   | .list [.atom "selectin", h, m] => do pure (.selectIn (← pathOf h) (← treeOf m))
   | .list [.atom "write", h, .atom an, m] => do pure (.write (← pathOf h) (an == "true") (← treeOf m))
   | .list [.atom "updatetd", h, m] => do pure (.updateTd (← pathOf h) (← treeOf m))
+  | .list [.atom "updatebs", h, m] => do pure (.updateBs (← pathOf h) (← treeOf m))
   | .list [.atom "auto", h, bd] => do pure (.autoBatch (← pathOf h) (← optNat bd))
   | .list (.atom "update" :: h :: items) => do
       let its ← items.mapM fun (it : Sexp) => match it with
